@@ -12,6 +12,7 @@ import time
 from .. import core
 from ..core import Report, Finding, Case, HarnessError
 from ..poolsim import Cfg, SimEnv
+from .. import cover
 
 
 # ---- schedule sources ---------------------------------------------------------------------------------------------------
@@ -149,6 +150,25 @@ class PoolProp:
                    res_cap=rng.choice([None, None, 1, 2, 3]), factory=factory,
                    quota=rng.choice([1, 1, 2, 3]) if factory else None, wait_ready=rng.random() < 0.3, calls=calls,
                    none_inputs=rng.random() < 0.25)
+
+    # ---- transition coverage: every reachable transition of the model for small configurations (harness/cover.py) -------
+    cover_limit = 60000
+
+    def cover_cfgs(self, tier):
+        return []
+
+    def cover_runs(self, tier, report):
+        runs = []
+        info = []
+        for cfg in self.cover_cfgs(tier):
+            n, complete, edges = cover.explore(self.model_name, cfg.model_line(), self.cover_limit)
+            paths = cover.covering_paths(n, edges)
+            info.append({"cfg": cfg.model_line(), "model_states": n, "model_transitions": len(edges), "complete": complete,
+                         "schedules": len(paths), "steps": sum(map(len, paths))})
+            for k, p in enumerate(paths):
+                runs.append((cfg, ("cover", len(info) - 1, k), cover.chooser_cover(p), "transition cover"))
+        report.extra["transition_cover"] = info
+        return runs
 
     p_factory = 0.35
     n_calls = [1, 1, 2]
@@ -350,6 +370,7 @@ class PoolProp:
             runs.append((cfg, desc, ch, ""))
         if tier == "thorough":
             runs += self.systematic()
+        runs += self.cover_runs(tier, report)
 
         prop_fail = None
         corr_fail = None
